@@ -77,7 +77,7 @@ func (r *rwRT) ruleTmplRange() {
 				it := pBind{"it", nd("Ident", map[string]Pat{"Name": pAny{}})}
 				cur := pMethodCall(pSame{"it"}, "Current")
 				initP := nd("AssignStmt", map[string]Pat{"Lhs": lst(it), "Tok": pTok{r.tokConst("DEFINE")}, "Rhs": lst(pLeaf{"iter"})})
-				var bodyP Pat
+				var bodyP, seqBodyP Pat
 				if ignoreK && ignoreV {
 					bodyP = pVal{bodyRef}
 				} else {
@@ -95,8 +95,30 @@ func (r *rwRT) ruleTmplRange() {
 					if tok == "DEFINE" {
 						// the original body must stay one nested block: it may re-declare the loop variables
 						bodyP = nested
+						if len(lhs) == 2 {
+							// two fresh variables may also be bound one after the other (either order): with ':='
+							// neither right-hand side can mention the other variable. For '=' the single tuple
+							// assignment is required (`for i, a[i] = range x` evaluates a[i]'s index first).
+							one := func(i int) Pat {
+								return nd("AssignStmt", map[string]Pat{"Lhs": lst(lhs[i]), "Tok": pTok{r.tokConst(tok)}, "Rhs": lst(rhs[i])})
+							}
+							bodyP = pOr{[]Pat{nested,
+								nd("BlockStmt", map[string]Pat{"List": lst(one(0), one(1), pVal{bodyRef})}),
+								nd("BlockStmt", map[string]Pat{"List": lst(one(1), one(0), pVal{bodyRef})})}}
+						}
 					} else {
 						bodyP = pOr{[]Pat{nested, nd("BlockStmt", map[string]Pat{"List": lst(kv, pSpread{"n.Body.List"})})}}
+						if len(lhs) == 2 {
+							one := func(i int) Pat {
+								return nd("AssignStmt", map[string]Pat{"Lhs": lst(lhs[i]), "Tok": pTok{r.tokConst(tok)}, "Rhs": lst(rhs[i])})
+							}
+							var alts []Pat
+							for _, ord := range [][2]int{{0, 1}, {1, 0}} {
+								alts = append(alts, nd("BlockStmt", map[string]Pat{"List": lst(one(ord[0]), one(ord[1]), pVal{bodyRef})}),
+									nd("BlockStmt", map[string]Pat{"List": lst(one(ord[0]), one(ord[1]), pSpread{"n.Body.List"})}))
+							}
+							seqBodyP = pOr{alts}
+						}
 					}
 				}
 				forP := nd("ForStmt", map[string]Pat{"Cond": pMethodCall(pSame{"it"}, "MoveNext"), "Body": bodyP})
@@ -104,6 +126,18 @@ func (r *rwRT) ruleTmplRange() {
 				err := m.match(o.Ret[0], initP, "init")
 				if err == nil {
 					err = m.match(o.Ret[1], forP, "for")
+				}
+				if seqBodyP != nil {
+					// '=' with two variables: Go performs one tuple assignment per iteration
+					m2 := &matcher{st: o.St, binds: map[string]AV{}}
+					split := err != nil && m2.match(o.Ret[0], initP, "init") == nil &&
+						m2.match(o.Ret[1], nd("ForStmt", map[string]Pat{"Cond": pMethodCall(pSame{"it"}, "MoveNext"), "Body": seqBodyP}), "for") == nil
+					c.check(!split, "RW.TMPL.RANGE.TUPLE", construct, pos,
+						"key and value of a '=' range loop are assigned by one tuple assignment (operands of the left-hand sides are evaluated before either variable changes, as in Go's range)",
+						"key and value of a '=' range loop are assigned one after the other: `for i, a[i] = range x` then indexes a with the new i, Go's range statement evaluates the index operands first")
+					if split {
+						err, m = nil, m2
+					}
 				}
 				if err == nil && countLeaf(o.St, o.Ret[1], "n.X") != 0 {
 					err = fmt.Errorf("the range operand is evaluated again inside the loop")
